@@ -38,7 +38,7 @@ REQUIRED_CLASSES = (['be:' + b for b in BACKENDS] + ['dtype:' + d for d in DTYPE
                      'units:on', 'units:off', 'opt:define', 'opt:const', 'value:none', 'str:blank', 'str:dquote',
                      'str:squote', 'str:punctuation', 'int:boundary', 'float:17digits', 'path:dotted', 'has:unit'])
 REQUIRED_MONITORS = (['compiles:' + b for b in BACKENDS] + ['symbols_compared:' + b for b in BACKENDS] +
-                     ['exports', 'selection_sets_compared'])
+                     ['exports', 'export_history_twins', 'selection_sets_compared'])
 ASSUMPTIONS = [
     'values are representable in the declared dtype (integers inside the range of their width/signedness, array '
     'elements <= 2^63-1 because the DIP parser reads arrays through numpy int64, float32 '
